@@ -216,7 +216,8 @@ def solve_rows(rows, want_duals=False):
     c[idx[(25, 0)]] = -1.0
     res = linprog(c, A_ub=mat(A_ub) if A_ub else None, b_ub=np.array(b_ub) if A_ub else None,
                   A_eq=mat(A_eq) if A_eq else None, b_eq=np.array(b_eq) if A_eq else None,
-                  bounds=[(0.0, None)] * nv, method="highs")
+                  bounds=[(0.0, None)] * nv, method="highs",
+                  options={"dual_feasibility_tolerance": 1e-10, "primal_feasibility_tolerance": 1e-10} if want_duals else None)
     if res.status != 0:
         return (res.status, None, None) if want_duals else (res.status, None)
     if not want_duals:
